@@ -429,8 +429,9 @@ func RunC05Pure(ctx *core.Ctx) {
 			b.flush()
 		}(w)
 	}
+	wg.Add(1)
+	go func() { defer wg.Done(); c05PureBig(ctx) }()
 	wg.Wait()
-	c05PureBig(ctx)
 }
 
 // corpus/C05/*.case: minimised past disagreements, one case per line, replayed first:
@@ -760,10 +761,18 @@ func c05BoundsCase(ctx *core.Ctx, b *c05Batch, k *c05Kind, vs []c05Val, arr stri
 	canon := "bounds " + k.name + " " + k.texts(vs)
 	ctx.Case(canon, len(vs) >= 2)
 	ctx.Hist("bounds-kind", k.name)
-	ctx.Hist("bounds-arrangement", arr)
+	if len(vs) > 4096 {
+		ctx.Hist("bounds-arrangement", "big")
+	} else {
+		ctx.Hist("bounds-arrangement", arr)
+	}
 	ctx.Hist("bounds-len", c05Bucket(len(vs)))
 	detail := func(extra map[string]any) map[string]any {
 		m := map[string]any{"op": "bounds", "kind": k.name, "values": k.texts(vs)}
+		if len(vs) > 4096 {
+			// long inputs are regenerated from the seed (stream named in `arrangement`), not spelled out
+			m["values"] = fmt.Sprintf("<%d values, regenerate with the run seed: %s>", len(vs), arr)
+		}
 		for kk, v := range extra {
 			m[kk] = v
 		}
@@ -910,8 +919,38 @@ func c05Kernels(k *c05Kind, vs []c05Val) map[string][2]c05Val {
 // pages of 1 MiB and more take the combined kernels inside boundsXxx: checked against a Go oracle
 func c05PureBig(ctx *core.Ctx) {
 	r := ctx.Rand("c05big")
+	b := &c05Batch{ctx: ctx, d: ctx.Driver()}
 	for _, name := range []string{"i32", "i64", "u32", "u64", "f32", "f64"} {
 		k := c05KindByName(name)
+		// Pages long enough for the size-dependent kernel selection inside boundsXxx (the AVX-512 int64
+		// kernel takes over at 32113 values, the combined kernels at 1 MiB): Page.Bounds() and the
+		// kernels against the Lean mirror (L2) and the oracle (L1), values on both sides of the sign
+		// boundary (2^31 / 2^63), NaNs for floats.
+		for _, n := range []int{32112, 32113, 40000, 65536, 131071} {
+			for variant := 0; variant < 2; variant++ {
+				vs, arr := k.genList(r, n)
+				if variant == 1 {
+					// a few values around the sign boundary, the extremes late in the page
+					w := uint(k.width)
+					edge := []uint64{1<<(w-1) - 1, 1 << (w - 1), 1<<(w-1) + 1, 0, 1, 1<<w - 1}
+					if w == 64 {
+						edge[5] = ^uint64(0)
+					}
+					if !k.float {
+						for i := range vs {
+							vs[i] = c05Val{bits: edge[2+r.Intn(2)]}
+						}
+						vs[n-1-r.Intn(40)] = c05Val{bits: edge[0]}
+						vs[n-1-r.Intn(40)] = c05Val{bits: edge[5]}
+						vs[r.Intn(n)] = c05Val{bits: edge[r.Intn(6)]}
+						arr = "sign-boundary"
+					}
+				}
+				c05BoundsCase(ctx, b, k, vs, fmt.Sprintf("stream c05big %s n=%d variant=%d %s", name, n, variant, arr))
+				ctx.Hist("bounds-len-big", fmt.Sprint(n))
+			}
+		}
+		b.flush()
 		for _, n := range []int{1<<20/(k.width/8) - 1, 1 << 20 / (k.width / 8), 1<<20/(k.width/8) + 13} {
 			vs := make([]c05Val, n)
 			for i := range vs {
@@ -929,6 +968,7 @@ func c05PureBig(ctx *core.Ctx) {
 			}
 		}
 	}
+	b.flush()
 }
 
 func c05PureOrder(ctx *core.Ctx, r *rand.Rand, b *c05Batch) {
